@@ -231,8 +231,10 @@ def check_property(pid, tier='quick', seed=0, replay_only=None):
         'wall_s': round(time.time() - t0, 2),
         'violations': len(violations) if not undecided else 0,
     }
-    os.makedirs(os.path.join(VERIF, 'evidence'), exist_ok=True)
-    json.dump(ev, open(os.path.join(VERIF, 'evidence', pid + '.json'), 'w'), indent=1)
+    # evidence/ is written only by runs against /repo itself; experiments on a scratch copy (VERIF_REPO) keep theirs apart
+    evdir = os.path.join(VERIF, 'evidence') if R.REPO == '/repo' else os.path.join(R.WORK, 'evidence')
+    os.makedirs(evdir, exist_ok=True)
+    json.dump(ev, open(os.path.join(evdir, pid + '.json'), 'w'), indent=1)
     for l in lines:
         print(l)
     print('%s tier=%s obligations=%d discharged=%d known=%d violations=%d undecided=%d wall=%.1fs' % (
